@@ -62,27 +62,31 @@ Qed.
 Lemma creation_ok_b_sound : forall e c,
   creation_ok_b e c = true -> policy_valid e c /\ attrs_permitted e (c_attrs c).
 Proof.
-  intros e c H. unfold creation_ok_b in H. bsplit. split.
-  - unfold policy_valid. split; [assumption|]. split.
-    + intros Hec.
-      match goal with H : (Nat.eqb (c_nec c) 0 || _) = true |- _ => apply orb_true_iff in H; destruct H as [H|H] end.
-      * apply Nat.eqb_eq in H. lia.
-      * bsplit. split; [assumption|]. apply Nat.eqb_eq. assumption.
-    + intros Hin. apply In_mem_str in Hin.
-      match goal with H : (negb (mem_str chain_meta _) || _) = true |- _ => rewrite Hin in H; cbn in H end.
+  intros e c H. unfold creation_ok_b in H.
+  apply andb_true_iff in H. destruct H as [H Hattr].
+  apply andb_true_iff in H. destruct H as [H Hinit].
+  apply andb_true_iff in H. destruct H as [Hver Hec].
+  split.
+  - unfold policy_valid. split; [exact Hver|]. split.
+    + intros Hpos. apply orb_true_iff in Hec. destruct Hec as [Hz|Hz].
+      * apply Nat.eqb_eq in Hz. lia.
+      * apply andb_true_iff in Hz. destruct Hz as [Hal Hrep]. split; [exact Hal|]. apply Nat.eqb_eq. exact Hrep.
+    + intros Hin. apply In_mem_str in Hin. rewrite Hin in Hinit. cbn in Hinit.
       destruct (c_initial c); [discriminate|reflexivity].
   - intros k Hin Hsys. unfold sys_attr in Hsys.
-    match goal with H : forallb _ (c_attrs c) = true |- _ => rewrite forallb_forall in H; specialize (H k Hin) end.
-    rewrite Hsys in H2. cbn in H2. bsplit. split; [apply mem_str_In; assumption|].
-    intros Hk. subst k. rewrite String.eqb_refl in *. cbn in *. assumption.
+    rewrite forallb_forall in Hattr. specialize (Hattr k Hin). cbn beta in Hattr.
+    rewrite Hsys in Hattr. cbn in Hattr.
+    apply andb_true_iff in Hattr. destruct Hattr as [Hmem Hmeta].
+    split; [apply mem_str_In; exact Hmem|].
+    intros Hk. subst k. rewrite String.eqb_refl in Hmeta. cbn in Hmeta. exact Hmeta.
 Qed.
 
 Lemma eacl_ok_b_sound : forall ext t, eacl_ok_b ext t = true -> eacl_rules_ok ext t.
 Proof.
-  intros ext t H. unfold eacl_ok_b in H. bsplit. split; [assumption|].
-  intros r Hin Hsys.
-  match goal with H : forallb _ (ea_records t) = true |- _ => rewrite forallb_forall in H; specialize (H r Hin) end.
-  apply negb_true_iff in H0.
+  intros ext t H. unfold eacl_ok_b in H. apply andb_true_iff in H. destruct H as [Hext Hall].
+  split; [exact Hext|].
+  intros r Hin Hsys. rewrite forallb_forall in Hall. specialize (Hall r Hin). cbn beta in Hall.
+  apply negb_true_iff in Hall.
   assert (existsb (Nat.eqb role_system) (r_roles r) = true) as Hx.
   { apply existsb_exists. exists role_system. split; [exact Hsys|apply Nat.eqb_refl]. }
   congruence.
@@ -112,7 +116,7 @@ Proof.
   - discriminate.
   - unfold verify_session_v1, check_token_lifetime in H. bsplit.
     repeat (apply andb_true_iff; split); try assumption.
-    destruct id as [i|]; [|reflexivity]. unfold applied_to in *. destruct (t1_cnr t); [assumption|reflexivity].
+    all: destruct id as [i|]; [|reflexivity]; unfold applied_to in *; destruct (t1_cnr t); [assumption|reflexivity].
   - unfold verify_session_v2, v2_valid_at, assert_container in H. bsplit.
     repeat (apply andb_true_iff; split); try assumption.
     match goal with H : existsb _ (t2_ctxs t) = true |- _ => apply existsb_exists in H; destruct H as [c [Hin Hc]] end.
@@ -164,17 +168,18 @@ Lemma process_ref : forall e r, process e r = true -> e_alphabet e = true /\ may
 Proof.
   intros e r H. unfold process in H. apply andb_true_iff in H. destruct H as [Ha H]. split; [exact Ha|].
   destruct r as [o c a e2|idok ex owner cnr a|t ex owner cnr ext a|o idok ne ex owner cnr a]; cbn.
-  - bsplit.
-    match goal with H : check_put_container _ _ _ _ = true |- _ => apply check_put_ref in H; destruct H as [H1 H2] end.
-    rewrite H1, H2. cbn.
+  - apply andb_true_iff in H. destruct H as [H He2].
+    apply andb_true_iff in H. destruct H as [_ Hput].
+    apply check_put_ref in Hput. destruct Hput as [H1 H2]. rewrite H1, H2. cbn.
     destruct o; try reflexivity. destruct e2 as [[t a2]|]; [|reflexivity].
-    bsplit.
-    match goal with H : check_set_eacl _ _ _ _ _ _ = true |- _ => apply check_set_eacl_ref in H; destruct H as [H3 H4] end.
-    rewrite H3, H4. reflexivity.
+    cbv beta iota in He2. bsplit.
+    match goal with H : check_set_eacl _ _ _ _ _ _ = true |- _ => apply check_set_eacl_ref in H; destruct H as [Hx3 Hx4] end.
+    rewrite Hx3, Hx4. reflexivity.
   - bsplit. apply andb_true_iff. split; [assumption|apply verify_signature_ref; assumption].
   - bsplit.
-    match goal with H : check_set_eacl _ _ _ _ _ _ = true |- _ => apply check_set_eacl_ref in H; destruct H as [H3 H4] end.
-    repeat (apply andb_true_iff; split); assumption.
+    match goal with H : check_set_eacl _ _ _ _ _ _ = true |- _ => apply check_set_eacl_ref in H; destruct H as [Hx3 Hx4] end.
+    rewrite Hx3, Hx4.
+    match goal with H : ex = true |- _ => rewrite H end. reflexivity.
   - bsplit. apply andb_true_iff. split; [assumption|apply verify_signature_ref; assumption].
 Qed.
 
@@ -187,7 +192,7 @@ Qed.
    context that carries the container-creation verb *)
 Lemma v2_creation_needs_put_verb : forall e o c a e2 t,
   process e (RCreate o c a e2) = true -> a_tok a = TokV2 t ->
-  exists cx, In cx (t2_ctxs t) /\ cx_cnr cx = None /\ In v2_verb_put (cx_verbs cx).
+  exists cx, In cx (t2_ctxs t) /\ cx_cnr cx = None /\ In (v2_verb o) (cx_verbs cx).
 Proof.
   intros e o c a e2 t H Ht. apply approve_implies in H. destruct H as [_ H]. cbn in H.
   destruct H as [Hau _]. unfold authorised in Hau. destruct Hau as [[Hno _]|Hs].
@@ -195,7 +200,7 @@ Proof.
   - rewrite Ht in Hs. cbn in Hs. destruct Hs as [_ [_ [_ [[cx [Hin [Hv Hc]]] _]]]].
     exists cx. split; [exact Hin|]. split.
     + destruct Hc as [Hc|[i [Hi _]]]; [exact Hc|discriminate].
-    + destruct o; exact Hv.
+    + exact Hv.
 Qed.
 
 Lemma no_system_role : forall e t ex owner cnr ext a r,
